@@ -47,9 +47,9 @@ func c14(c *Ctx) {
 		case has("!"+s+".submitted") && has(s+".ourVAA != nil") && has(fmt.Sprintf("%d < %s", stl, age)) &&
 			has("(*N/db.Database).GetSignedVAABytes(p.db,*N/db.VaaIDFromVAA("+s+".ourVAA))#1 == nil"):
 			class = "late (a quorum VAA for this message id is in the store)"
-		case has(s+".submitted") && has("1 <= (time.Duration).Hours("+age+")"):
+		case has(s+".submitted") && (has("1 <= (time.Duration).Hours("+age+")") || has("3600000000000 <= "+age)):
 			class = "submitted-expired (>= 1 h)"
-		case has(s+".ourMsg == nil") && has("!"+s+".submitted") && has("5 <= (time.Duration).Minutes("+age+")") && has(fmt.Sprintf("%d <= time.Since(%s.lastRetry)", rt, s)):
+		case has(s+".ourMsg == nil") && has("!"+s+".submitted") && (has("5 <= (time.Duration).Minutes("+age+")") || has("300000000000 <= "+age)) && has(fmt.Sprintf("%d <= time.Since(%s.lastRetry)", rt, s)):
 			class = "never-observed (ourMsg == nil, >= 5 min)"
 		case has("!" + s + ".submitted"):
 			// exhausted: the guard is a disjunction built from boolean phis; expand it and require every
@@ -199,7 +199,9 @@ func c14(c *Ctx) {
 	c.checkFacts(p, "C14.retry-effects", fn, "call:PostObservationRequest", post, fs, []req{
 		{Name: "entry not submitted", Pred: func(at string) bool { return at == "!"+s+".submitted" }},
 		{Name: "node has signed the message (ourMsg != nil)", Pred: func(at string) bool { return at == s+".ourMsg != nil" }},
-		{Name: "age >= 5 min", Pred: func(at string) bool { return at == "5 <= (time.Duration).Minutes("+age+")" }},
+		{Name: "age >= 5 min", Pred: func(at string) bool {
+			return at == "5 <= (time.Duration).Minutes("+age+")" || at == "300000000000 <= "+age
+		}},
 		{Name: "since(lastRetry) >= retryTime", Pred: func(at string) bool { return at == fmt.Sprintf("%d <= time.Since(%s.lastRetry)", rt, s) }},
 	})
 	// request content
